@@ -14,6 +14,7 @@ LEG_AT = ["[Cexpl]", "[=Nexpl]", "[C@@Hexpl]", "[N+expl]", "[Fe++expl]", "[/O-ex
 A_BR = CORE + ["[#C]", "[Branch1_1]", "[Branch1_2]", "[Branch2_3]", "[Branch3_1]", "[Expl=Ring1]", "[Expl#Ring2]",
                "[Expl/Ring1]", "[Expl\\Ring1]", "[Expl=Ring3]"]
 A_AT = CORE + LEG_AT
+A_FR = ["[C]", "[=C]", "[N]", "[Branch1]", "[Ring1]", ".", "[Na+expl]", "[=Nexpl]", "[Branch1_2]", "[Expl=Ring1]", "[Cexpl]"]
 
 
 def _norm(r):
@@ -78,7 +79,8 @@ def run(rep, tier, seed, budget):
         t3, t4 = make_tokens("v", 2, ["[#C]", "[=C]", "[C]", "[#Cexpl]", "[=Nexpl]"])
         judge(eng, col, [t0, t1, t2, t3, t4, "[O]"])
 
-    plan = [("br", n) for n in ((1, 2, 3) if quick else (1, 2, 3, 4, 5))] + \
+    plan = [("fr", n) for n in ((2, 3, 4) if quick else (2, 3, 4, 5))]
+    plan += [("br", n) for n in ((1, 2, 3) if quick else (1, 2, 3, 4, 5))] + \
            [("at", n) for n in ((1, 2, 3) if quick else (1, 2, 3, 4, 5))] + [("lm", 0), ("lm2", 0)]
     for kind, n in plan:
         left = t_end - time.time()
@@ -90,9 +92,9 @@ def run(rep, tier, seed, budget):
             name = "all L, M in 1..3: [C][=C][C][C] t1 t2 t3 [O], t1 t2 over all 21 legacy branch/ring symbols"
             fn, bounds = all_lm, {"t1,t2": LEG_BR + ["[C]", "[Ring1]"], "t3": ["[C]", "[Ring1]", "[Branch1_2]", "[N]"]}
         else:
-            alpha = A_BR if kind == "br" else A_AT
+            alpha = A_BR if kind == "br" else (A_AT if kind == "at" else A_FR)
             name = "differential N=%d (%s): decoder(x, compatible=True) vs decoder(modernised x) vs decoder(x)" % (
-                n, "branch/ring legacy" if kind == "br" else "legacy atoms")
+                n, {"br": "branch/ring legacy", "at": "legacy atoms", "fr": "several fragments, modern and legacy"}[kind])
             fn, bounds = level(n, alpha), {"alphabet": alpha, "N_symbols": n}
         if left < 5:
             rep.parts.append({"name": name, "complete": False, "paths": 0, "bounds": bounds, "claim": "not started (time budget)"})
